@@ -36,6 +36,8 @@ type c02Input struct {
 	Reset   uint32    `json:"reset,omitempty"`
 	NodeBat int       `json:"nodebatch,omitempty"`
 	At      *int      `json:"at,omitempty"` // informational: the batch index a violation was seen at
+	Sched   []int     `json:"sched,omitempty"` // kind "resetord": the choice taken at every point where a background write and a direct write wait together
+	One     bool      `json:"one,omitempty"`   // kind "resetord": run only the schedule Sched (otherwise all schedules are enumerated)
 }
 
 // ---------------------------------------------------------------------------------------------
@@ -623,6 +625,49 @@ func c02StageOf(b c02Batch) string {
 	return "-"
 }
 
+// c02ResetPrefixes: every prefix of the reset's batches rb, on top of the pre-reset batches pre, is re-opened (which
+// resumes the reset); the resumed reset must end in the database of the uninterrupted one, at the target, equal to
+// the reference, and accept the remaining blocks.
+func c02ResetPrefixes(b *c02Built, in c02Input, pre, rb []c02Batch, c0, target uint32, final map[string][]byte, viol c02Viol) ([]c02Recovered, error) {
+	top := uint32(len(b.Blocks) - 1)
+	var recov []c02Recovered
+	for k := 0; k <= len(rb); k++ {
+		res := c02Recovered{K: k, Res: "ok"}
+		st, err := c02NewStore(in.Cfg.Backend)
+		if err != nil {
+			return nil, err
+		}
+		c02Apply(st.st, pre)
+		c02Apply(st.st, rb[:k])
+		bc2, _, fail := c02Open(c02NoClose{st.st}, in.Cfg, nil)
+		if fail != "" {
+			res.Res, res.Err = "fail", c02Short(fail)
+			viol("reopen-fails", c02Short(fail), k)
+		} else {
+			go bc2.Run()
+			want := int(target)
+			if k == 0 || len(rb) == 0 {
+				want = int(c0)
+			}
+			if k > 0 {
+				if _, err := bc2.VerifPersist(); err != nil {
+					viol("flush", err.Error(), k)
+				}
+				n, ex := c02DiffDumps(c02NormDump(c02Dump(st.st)), final, nil)
+				res.Same = n == 0
+				if n > 0 {
+					viol("resumed-db-differs", fmt.Sprintf("the resumed reset ends in a database that differs from the uninterrupted reset's in %d keys: %v", n, ex), k)
+				}
+			}
+			c02CheckNode(b, bc2, st.st, in.Cfg, k, top, want, &res, viol)
+			bc2.Close()
+		}
+		st.destroy()
+		recov = append(recov, res)
+	}
+	return recov, nil
+}
+
 func c02RunReset(co *caseOut, in c02Input) error {
 	c02srih = in.Cfg.SRIH
 	b, err := c02Build(c02History{Cfg: in.Cfg, Blocks: in.Blocks})
@@ -678,7 +723,6 @@ func c02RunReset(co *caseOut, in c02Input) error {
 		stages = append(stages, c02StageOf(x))
 	}
 	final := c02NormDump(c02Dump(base.st))
-	top := uint32(len(b.Blocks) - 1)
 	// reset_indistinguishable (as far as it goes): everything but trie nodes equals the reference that only
 	// ever synchronised to the target; trie nodes of the removed blocks stay behind (unreachable garbage).
 	if len(rb) > 0 {
@@ -690,39 +734,9 @@ func c02RunReset(co *caseOut, in c02Input) error {
 			viol("not-indistinguishable", fmt.Sprintf("after Reset(%d) the database differs from a node that only synchronised to %d in %d keys (trie garbage aside): %v", target, target, n, ex), len(rb))
 		}
 	}
-	var recov []c02Recovered
-	for k := 0; k <= len(rb); k++ {
-		res := c02Recovered{K: k, Res: "ok"}
-		st, err := c02NewStore(in.Cfg.Backend)
-		if err != nil {
-			return err
-		}
-		c02Apply(st.st, rec.batches[:n0+k])
-		bc2, _, fail := c02Open(c02NoClose{st.st}, in.Cfg, nil)
-		if fail != "" {
-			res.Res, res.Err = "fail", c02Short(fail)
-			viol("reopen-fails", c02Short(fail), k)
-		} else {
-			go bc2.Run()
-			want := int(target)
-			if k == 0 || len(rb) == 0 {
-				want = int(c0)
-			}
-			if k > 0 {
-				if _, err := bc2.VerifPersist(); err != nil {
-					viol("flush", err.Error(), k)
-				}
-				n, ex := c02DiffDumps(c02NormDump(c02Dump(st.st)), final, nil)
-				res.Same = n == 0
-				if n > 0 {
-					viol("resumed-db-differs", fmt.Sprintf("the resumed reset ends in a database that differs from the uninterrupted reset's in %d keys: %v", n, ex), k)
-				}
-			}
-			c02CheckNode(b, bc2, st.st, in.Cfg, k, top, want, &res, viol)
-			bc2.Close()
-		}
-		st.destroy()
-		recov = append(recov, res)
+	recov, err := c02ResetPrefixes(b, in, rec.batches[:n0], rb, c0, target, final, viol)
+	if err != nil {
+		return err
 	}
 	keep := false // does the stale-block batch re-store headers (the code with the F20 repair)?
 	for i, x := range rb {
@@ -831,6 +845,11 @@ func c02RunJump(co *caseOut, in c02Input) error {
 	} else {
 		close(raceDone)
 	}
+	var gate *c02Gate
+	if in.Cfg.Race && in.Cfg.Slow {
+		gate = c02NewGate(nil)
+		rec.gate = gate
+	}
 	var derr error
 	m := c02Try(func() {
 		derr = src.drive(bc, nb, func(step int) error {
@@ -841,6 +860,12 @@ func c02RunJump(co *caseOut, in c02Input) error {
 			return nil
 		})
 	})
+	if gate != nil {
+		gate.close()
+		if gate.err != "" {
+			return fmt.Errorf("%s", gate.err)
+		}
+	}
 	close(stopRace)
 	<-raceDone
 	if m != "" || derr != nil {
@@ -999,13 +1024,17 @@ func c02RunCase(co *caseOut, kind string, in c02Input) error {
 		return c02RunLongGC(co, in)
 	case "storagesync":
 		return c02RunStorageSync(co, in)
+	case "resetord":
+		return c02RunResetOrd(co, in)
 	}
 	return fmt.Errorf("unknown case kind %q", kind)
 }
 
 func runC02(args []string) error {
 	cf, fs := parseCommon("c02", args)
+	only := fs.String("only", "", "debugging: run only the fixed families of this kind (longgc|jump|storagesync|resetord|gen)")
 	fs.Parse(args)
+	want := func(k string) bool { return *only == "" || *only == k }
 	core.VerifSetPersistInterval(time.Hour) // every flush is requested by the harness
 	co := newCaseOut(cf.out, "Harness.C02", "N",
 		"one case = one generated block history (native transfers, fee changes, faulting scripts; with/without StateRootInHeader; memory/LevelDB/BoltDB) "+
@@ -1035,7 +1064,7 @@ func runC02(args []string) error {
 	}
 	r := newRng(cf.seed)
 	// one long chain: beyond one page of header hashes (quick), beyond two (thorough)
-	{
+	if want("longgc") {
 		n := c02PS + 14
 		if cf.tier == "thorough" {
 			n = 2*c02PS + 16
@@ -1046,7 +1075,7 @@ func runC02(args []string) error {
 	}
 	// state synchronisation with a second goroutine flushing continuously: batch boundaries fall between
 	// the single Puts of one AddMPTNodes call (H1); not reproducible boundary by boundary, so several runs
-	{
+	if want("jump") {
 		races := 2
 		if cf.tier == "thorough" {
 			races = 20
@@ -1054,6 +1083,7 @@ func runC02(args []string) error {
 		for i := 0; i < races; i++ {
 			_, in := c02Gen(r, 3)
 			in.Cfg.Race = true
+			in.Cfg.Slow = i%2 == 1 // every other run on a slow store
 			in.NodeBat = 200
 			in.Ops = nil
 			if err := c02RunCase(co, "jump", in); err != nil {
@@ -1063,8 +1093,8 @@ func runC02(args []string) error {
 	}
 	// contract-storage-based synchronisation (NeoFS mode): ModeLatest and ModeGC light nodes, item batches cut at
 	// random sizes, extra flushes between deliveries; and the same with the racing flusher
-	{
-		det, races := 2, 1
+	if want("storagesync") {
+		det, races := 2, 2
 		if cf.tier == "thorough" {
 			det, races = 12, 12
 		}
@@ -1074,7 +1104,20 @@ func runC02(args []string) error {
 			}
 		}
 	}
-	for i := 0; i < cf.n; i++ {
+	// Reset on a slow store: every admissible order of the helper goroutine's batches and Reset's direct store
+	// operations, every prefix of every order
+	if want("resetord") {
+		n := 1
+		if cf.tier == "thorough" {
+			n = 6
+		}
+		for i := 0; i < n; i++ {
+			if err := c02RunCase(co, "resetord", c02GenResetOrd(r)); err != nil {
+				return fmt.Errorf("reset on a slow store %d: %w", i, err)
+			}
+		}
+	}
+	for i := 0; i < cf.n && want("gen"); i++ {
 		kind, in := c02Gen(r, i)
 		if err := c02RunCase(co, kind, in); err != nil {
 			return fmt.Errorf("case %d (%s): %w", i, kind, err)
